@@ -58,7 +58,7 @@ def run(pid, tier, seed):
     cfg = cfgs[m["cfg"]]
     step = next((s for s in m["steps"] if s["route"] == where), {})
     nondef = sorted(step.get("diff", []))
-    ident = {"direction": "print" if where == "RT_Str" else "text", "class": cfg["cls"], "clause": clause,
+    ident = {"direction": "print" if where in ("RT_Str", "RT_StrMut") else "text", "class": cfg["cls"], "clause": clause,
              "fields": nondef, "list_valued_option": any(str(v).startswith("l:") for v in cfg["opts"].values())}
     key = json.dumps([ident, m["cfg"], where])
     if key in seen:
